@@ -5,6 +5,7 @@
 import SymfcModel.Model.Inst
 import SymfcModel.Lemmas.Chain
 import SymfcModel.Lemmas.Design
+import SymfcModel.Lemmas.Pipeline
 namespace Symfc.C05
 open Symfc
 
@@ -69,5 +70,26 @@ theorem accumulated_normal_equations_are_those_of_the_taylor_model (c : Cell) (o
     (atomBatch snapBatch : Nat) (hba : 0 < atomBatch) (hbs : 0 < snapBatch) :
     normalEqOp c ods us fs atomBatch snapBatch = some (normalEqSpec c ods us fs) :=
   D2 c ods hods hN us fs hfs hS atomBatch snapBatch hba hbs
+
+/-- C05, the capstone: if the forces are `y = X x₀` for an ADMISSIBLE tensor `x₀` (in the range of the compression,
+    space-group invariant, obeying the sum rule), the compressed design matrix `X B` is injective (enough snapshots)
+    and `c` solves the normal equations `(XB)ᵀ(XB) c = (XB)ᵀ y` (what `solve_linear_equation` returns when `posv`
+    succeeds), then the returned force constants `B c` ARE `x₀` — exactly, over any ordered field. Together with
+    `design_matrix_is_the_taylor_expansion` (`X` is the Taylor model) and
+    `accumulated_normal_equations_are_those_of_the_taylor_model` (the code accumulates exactly these equations). -/
+theorem admissible_force_constants_are_recovered_exactly {K : Type*} [Field K] [LinearOrder K] [IsStrictOrderedRing K]
+    {m k₁ k₂ k₃ r r' : Type*} [Fintype m] [Fintype k₁] [Fintype k₂] [Fintype k₃] [Fintype r] [Fintype r']
+    [DecidableEq m] [DecidableEq k₁] [DecidableEq k₂] [DecidableEq k₃]
+    (A : Matrix m k₁ K) (P : Matrix m m K) (T : Matrix r m K) (ν : K) (W₂ : Matrix k₁ k₂ K) (W₃ : Matrix k₂ k₃ K)
+    (hA : A.transpose * A = 1) (h₂ : Pipeline.EigBasis (A.transpose * P * A) W₂)
+    (h₃ : Pipeline.EigBasis (Pipeline.sumruleProj (A * W₂) T ν) W₃)
+    (hPs : P.transpose = P) (hPi : P * P = P) (hν : 0 < ν)
+    (X : Matrix r' m K) (x₀ : m → K)
+    (hx₀ : (∃ y : k₁ → K, x₀ = A.mulVec y) ∧ P.mulVec x₀ = x₀ ∧ T.mulVec x₀ = 0)
+    (hinj : Function.Injective (X * (A * W₂ * W₃)).mulVec) (c : k₃ → K)
+    (hc : ((X * (A * W₂ * W₃)).transpose * (X * (A * W₂ * W₃))).mulVec c
+            = (X * (A * W₂ * W₃)).transpose.mulVec (X.mulVec x₀)) :
+    (A * W₂ * W₃).mulVec c = x₀ :=
+  Pipeline.exact_recovery A P T ν W₂ W₃ hA h₂ h₃ hPs hPi hν X x₀ hx₀ hinj c hc
 
 end Symfc.C05
